@@ -66,6 +66,13 @@ def make(kind, events, ws):
         data = sym_array([list(ws)]) if S.symbolic() else np.array([list(ws)], dtype=float)
         t = ProbabilityTable(data=data, table_index=TableIndex(field_names=('row', 'event'), field_domains=(('r',), tuple(events))))
         return t['r']
+    if kind == 'table-perm':
+        # the same distribution, obtained from a table that STORES the events in the opposite order by selecting the row and listing all events
+        # (a full-length, non-identity key list inside a tuple selector): labels and numbers must stay in step
+        rev_e, rev_w = list(reversed(events)), list(reversed(list(ws)))
+        data = sym_array([rev_w]) if S.symbolic() else np.array([rev_w], dtype=float)
+        t = ProbabilityTable(data=data, table_index=TableIndex(field_names=('row', 'event'), field_domains=(('r',), tuple(rev_e))))
+        return t['r', list(events)]
     raise ValueError(kind)
 
 
@@ -100,7 +107,7 @@ def h_algebra(kind, n, proj_id, mustfail=False, kind2='dict'):
         # marginalize: projection patterns over the support
         projs = projection_family(list(f))
         proj = projs[proj_id % len(projs)]
-        if 'table' in (kind, kind2):
+        if 'table' in (kind, kind2) or 'table-perm' in (kind, kind2):
             # a tuple used as a key of a table row is a multi-field selector by design (C12), not an event label: table-backed kernels get string labels
             proj = {e: (v if not isinstance(v, tuple) else 'blk%d' % v[1]) for e, v in proj.items()}
         m = d.marginalize(lambda e: proj[e])
@@ -249,7 +256,7 @@ def h_sample(kind, n, zero_pattern, k):
     """sample returns positive-probability events only, the sole event of a one-point distribution, consumes only the given rng"""
     events = POOL[:n]
     ws = [0.0 if (zero_pattern >> i) & 1 else S.real('p_%d' % i, 0, None, lo_strict=True) for i in range(n)]
-    if all(isinstance(w, float) for w in ws) and kind in ('dict', 'table'):
+    if all(isinstance(w, float) for w in ws) and kind in ('dict', 'table', 'table-perm'):
         raise S.PathInfeasible()
     uses = []
     with facades(uses):
@@ -334,8 +341,10 @@ def h_from_pairs(n):
 def tasks(tier, seed):
     T = []
     N = [1, 2, 3] + ([4] if tier == 'thorough' else [])
-    for kind in ('dict', 'uniform', 'det', 'table'):
+    for kind in ('dict', 'uniform', 'det', 'table', 'table-perm'):
         for n in N:
+            if kind == 'table-perm' and (n < 2 or (tier == 'quick' and n > 3)):
+                continue
             if kind == 'det' and n > 1:
                 continue
             nproj = len(projection_family(POOL[:n]))
@@ -348,8 +357,8 @@ def tasks(tier, seed):
                         T.append(Task('algebra/%s-with-%s/n%d/proj%d' % (kind, kind2, n, pid), h_algebra, (kind, n, pid, False, kind2), tier='B'))
             for zp in range(2 ** n - 1):
                 T.append(Task('condition/%s/n%d/zero%d' % (kind, n, zp), h_condition_normalize, (kind, n, zp), tier='B'))
-            for zp in (range(2 ** n - 1) if kind in ('dict', 'table') else [0]):
-                for k in ((1, 2) if (n >= 2 and kind in ('dict', 'table')) else (1,)):
+            for zp in (range(2 ** n - 1) if kind in ('dict', 'table', 'table-perm') else [0]):
+                for k in ((1, 2) if (n >= 2 and kind in ('dict', 'table', 'table-perm')) else (1,)):
                     T.append(Task('sample/%s/n%d/zero%d/k%d' % (kind, n, zp, k), h_sample, (kind, n, zp, k), tier='B'))
     for ka in ('dict', 'uniform', 'table'):
         for kb in ('dict', 'uniform'):
